@@ -45,14 +45,29 @@ Definition term_name (t : term) : name :=
   | TVal e => NEnt e | TAttr e a => NAttr e a | TOld e => NOld e | TOldAttr e a => NOldAttr e a
   end.
 
-Inductive const := CNone | CStr (v : val) | CInt (v : val).
+(* operands: shapes around a dotted name.  Method calls, subscripts and attribute accesses here are applied to the RESULT of
+   a call / subscript / parenthesised expression (never directly to a dotted name, which would collapse into a longer name),
+   except the slice, which is a Subscript and may sit on a bare name. *)
+Inductive oexp :=
+  | OTerm (t : term)                  (* d.e ... *)
+  | OStr (o : oexp)                   (* str(o) *)
+  | OInt (o : oexp)                   (* int(o) *)
+  | OOrEmpty (o : oexp)               (* (o or '') *)
+  | OOrZero (o : oexp)                (* (o or 0) *)
+  | OStrip (o : oexp)                 (* o.strip()        o not a bare name *)
+  | OSplit0 (o : oexp)                (* o.split(',')[0]  o not a bare name *)
+  | OSlice (o : oexp).                (* o[0:] *)
+Coercion OTerm : term >-> oexp.
+
+Inductive const := CNone | CStr (v : val) | CInt (v : val) | CEmptyStr | CNoneStr.     (* None, '<v>', v, '', 'None' *)
 
 Inductive bexp :=
-  | BEqC (t : term) (c : const)       (* (t == c) *)
-  | BNeC (t : term) (c : const)       (* (t != c) *)
-  | BEqT (t u : term)                 (* (t == u) *)
-  | BNeT (t u : term)                 (* (t != u) *)
-  | BTruthy (t : term)                (* t          (bare dotted name) *)
+  | BEqC (o : oexp) (c : const)       (* (o == c) *)
+  | BNeC (o : oexp) (c : const)       (* (o != c) *)
+  | BEqT (o u : oexp)                 (* (o == u) *)
+  | BNeT (o u : oexp)                 (* (o != u) *)
+  | BGtC (o : oexp) (n : N)           (* (o > n) *)
+  | BTruthy (o : oexp)                (* o          (a bare dotted name when o is a term) *)
   | BNot (b : bexp)                   (* (not b) *)
   | BAnd (b c : bexp)                 (* (b and c) *)
   | BOr (b c : bexp).                 (* (b or c) *)
@@ -74,9 +89,9 @@ Inductive anyform :=
 Definition classify (a : arg) : anyform + bexp :=
   match a with
   | AStarArg e => inl (AStar e)
-  | AExpr (BTruthy (TVal e)) => inl (AVal e)
-  | AExpr (BTruthy (TAttr e x)) => inl (AAttr e x)
-  | AExpr (BTruthy (TOld e)) => inl (AOld e)
+  | AExpr (BTruthy (OTerm (TVal e))) => inl (AVal e)
+  | AExpr (BTruthy (OTerm (TAttr e x))) => inl (AAttr e x)
+  | AExpr (BTruthy (OTerm (TOld e))) => inl (AOld e)
   | AExpr b => inr b
   end.
 Definition args_anys (l : list arg) : list anyform :=
@@ -87,11 +102,18 @@ Definition args_exprs (l : list arg) : list bexp :=
 Definition any_name (f : anyform) : name :=
   match f with AVal e => NEnt e | AAttr e a => NAttr e a | AOld e => NOld e | AStar e => NStar e end.
 
-(* AstEval.get_names on the expression: every dotted name collapses to one name *)
+(* AstEval.get_names on the expression: every dotted name collapses to one name; the walk descends through calls,
+   subscripts, attribute accesses on non-names and boolean operators *)
+Fixpoint oexp_terms (o : oexp) : list term :=
+  match o with
+  | OTerm t => [t]
+  | OStr o | OInt o | OOrEmpty o | OOrZero o | OStrip o | OSplit0 o | OSlice o => oexp_terms o
+  end.
+Definition oexp_names (o : oexp) : list name := map term_name (oexp_terms o).
 Fixpoint bexp_names (b : bexp) : list name :=
   match b with
-  | BEqC t _ | BNeC t _ | BTruthy t => [term_name t]
-  | BEqT t u | BNeT t u => [term_name t; term_name u]
+  | BEqC o _ | BNeC o _ | BGtC o _ | BTruthy o => oexp_names o
+  | BEqT o u | BNeT o u => oexp_names o ++ oexp_names u
   | BNot b => bexp_names b
   | BAnd b c | BOr b c => bexp_names b ++ bexp_names c
   end.
@@ -199,41 +221,76 @@ Section Eval.
     end.
 End Eval.
 
-Definition pv_eq_const (v : pyval) (c : const) : bool :=
-  match v, c with
-  | PNone, CNone => true
-  | PSv s, CStr w => N.eqb (sv_val s) w
-  | PAtom n, CInt m => N.eqb n m
+(* values of operands: None, a StateVal, an int, a plain str ('' / 'None' / the digits of v) *)
+Inductive strc := StrEmpty | StrNoneWord | StrDig (v : val).
+Inductive xval := XNone | XSv (s : sv) | XInt (n : N) | XStr (c : strc).
+Definition x_of_pyval (v : pyval) : xval := match v with PNone => XNone | PSv s => XSv s | PAtom n => XInt n end.
+Definition x_str (x : xval) : option strc :=          (* the text when x is a str *)
+  match x with XSv s => Some (StrDig (sv_val s)) | XStr c => Some c | _ => None end.
+Definition strc_eqb (a b : strc) : bool :=
+  match a, b with
+  | StrEmpty, StrEmpty | StrNoneWord, StrNoneWord => true
+  | StrDig v, StrDig w => N.eqb v w
   | _, _ => false
   end.
-Definition pv_eq (v w : pyval) : bool :=
-  match v, w with
-  | PNone, PNone => true
-  | PSv s, PSv s' => N.eqb (sv_val s) (sv_val s')        (* str.__eq__ *)
-  | PAtom n, PAtom m => N.eqb n m
-  | _, _ => false
+Definition x_truthy (x : xval) : bool :=
+  match x with
+  | XNone => false | XSv _ => true                      (* state strings are never empty *)
+  | XInt n => negb (N.eqb n 0)
+  | XStr StrEmpty => false | XStr _ => true
   end.
-Definition pv_truthy (v : pyval) : bool :=
-  match v with PNone => false | PSv _ => true | PAtom n => negb (N.eqb n 0) end.   (* state strings are never empty *)
+Definition x_eq_const (x : xval) (c : const) : bool :=
+  match c with
+  | CNone => match x with XNone => true | _ => false end
+  | CInt m => match x with XInt n => N.eqb n m | _ => false end
+  | CStr w => match x_str x with Some t => strc_eqb t (StrDig w) | None => false end
+  | CEmptyStr => match x_str x with Some t => strc_eqb t StrEmpty | None => false end
+  | CNoneStr => match x_str x with Some t => strc_eqb t StrNoneWord | None => false end
+  end.
+Definition x_eq (x y : xval) : bool :=
+  match x, y with
+  | XNone, XNone => true
+  | XInt n, XInt m => N.eqb n m
+  | _, _ => match x_str x, x_str y with Some a, Some b => strc_eqb a b | _, _ => false end
+  end.
 
 Section BEval.
   Variable ev_term : term -> res.
   (* [None] = an exception escaped *)
+  Fixpoint oeval (o : oexp) : option xval :=
+    match o with
+    | OTerm t => match ev_term t with RVal v => Some (x_of_pyval v) | RExc => None end
+    | OStr o =>
+        match oeval o with
+        | Some XNone => Some (XStr StrNoneWord)
+        | Some (XSv s) => Some (XStr (StrDig (sv_val s)))
+        | Some (XInt n) => Some (XStr (StrDig n))
+        | Some (XStr c) => Some (XStr c)
+        | None => None
+        end
+    | OInt o =>
+        match oeval o with
+        | Some (XInt n) => Some (XInt n)
+        | Some (XSv s) => Some (XInt (sv_val s))
+        | Some (XStr (StrDig n)) => Some (XInt n)
+        | _ => None                                     (* int(None): TypeError; int(''), int('None'): ValueError *)
+        end
+    | OOrEmpty o => match oeval o with Some x => Some (if x_truthy x then x else XStr StrEmpty) | None => None end
+    | OOrZero o => match oeval o with Some x => Some (if x_truthy x then x else XInt 0) | None => None end
+    | OStrip o | OSplit0 o | OSlice o =>
+        match oeval o with
+        | Some x => match x_str x with Some c => Some (XStr c) | None => None end   (* None / int: AttributeError, TypeError *)
+        | None => None
+        end
+    end.
   Fixpoint beval (b : bexp) : option bool :=
     match b with
-    | BEqC t c => match ev_term t with RVal v => Some (pv_eq_const v c) | RExc => None end
-    | BNeC t c => match ev_term t with RVal v => Some (negb (pv_eq_const v c)) | RExc => None end
-    | BEqT t u =>
-        match ev_term t with
-        | RVal v => match ev_term u with RVal w => Some (pv_eq v w) | RExc => None end
-        | RExc => None
-        end
-    | BNeT t u =>
-        match ev_term t with
-        | RVal v => match ev_term u with RVal w => Some (negb (pv_eq v w)) | RExc => None end
-        | RExc => None
-        end
-    | BTruthy t => match ev_term t with RVal v => Some (pv_truthy v) | RExc => None end
+    | BEqC o c => option_map (fun x => x_eq_const x c) (oeval o)
+    | BNeC o c => option_map (fun x => negb (x_eq_const x c)) (oeval o)
+    | BEqT o u => match oeval o with Some x => option_map (x_eq x) (oeval u) | None => None end
+    | BNeT o u => match oeval o with Some x => option_map (fun y => negb (x_eq x y)) (oeval u) | None => None end
+    | BGtC o n => match oeval o with Some (XInt m) => Some (N.ltb n m) | _ => None end   (* str/None > int: TypeError *)
+    | BTruthy o => option_map x_truthy (oeval o)
     | BNot b => option_map negb (beval b)
     | BAnd b c => match beval b with Some true => beval c | r => r end
     | BOr b c => match beval b with Some false => beval c | r => r end
@@ -355,23 +412,16 @@ Definition spec_term (ev : event) (S : hass) (t : term) : pyval :=
   | TOld x => if N.eqb x (ev_ent ev) then of_osv (ev_old ev) else PNone
   | TOldAttr x a => if N.eqb x (ev_ent ev) then of_oatom (ogetattr a (ev_old ev)) else PNone
   end.
-Fixpoint spec_bexp (ev : event) (S : hass) (b : bexp) : bool :=
-  match b with
-  | BEqC t c => pv_eq_const (spec_term ev S t) c
-  | BNeC t c => negb (pv_eq_const (spec_term ev S t) c)
-  | BEqT t u => pv_eq (spec_term ev S t) (spec_term ev S u)
-  | BNeT t u => negb (pv_eq (spec_term ev S t) (spec_term ev S u))
-  | BTruthy t => pv_truthy (spec_term ev S t)
-  | BNot b => negb (spec_bexp ev S b)
-  | BAnd b c => spec_bexp ev S b && spec_bexp ev S c
-  | BOr b c => spec_bexp ev S b || spec_bexp ev S c
-  end.
+(* the expression (several arguments: "logically or-ed into a single expression", any([...])) has Python's meaning on these
+   values; an expression that raises is not truthy *)
+Definition spec_truthy (ev : event) (S : hass) (l : list bexp) : bool :=
+  exprs_truthy (fun t => RVal (spec_term ev S t)) l.
 
 (* "a change of a watched variable or attribute at which the trigger expression is truthy, or which matches an
    any-change form" *)
 Definition qualifies (T : trig) (ev : event) (S : hass) : bool :=
   any_changed ev (trig_anys T)
-  || (values_changed ev (trig_ident T) && existsb (spec_bexp ev S) (trig_exprs T)).
+  || (values_changed ev (trig_ident T) && spec_truthy ev S (trig_exprs T)).
 
 Definition spec_trig_runs (T : trig) (h0 : hass) (hist : list (list op)) : list run :=
   flat_map (fun p => if qualifies T (fst p) (snd p) then [mk_run T (fst p)] else []) (hist_events h0 1 (concat hist)).
